@@ -86,42 +86,9 @@ Definition agree_mapper (c : list raw_element * list dtd_element * list klass) :
   match dtd_classes raw with Some m => list_eqb klass_eqb (map canon_klass m) ks | None => false end.
 
 (* ---------------------------------------------------------------- guards of the C16 theorems (see Proofs/Dtd.v) *)
-Definition occur_once (o : str) : bool := str_eqb o S_once.
 Definition occur_bounded (o : str) : bool := str_eqb o S_once || str_eqb o S_opt.
 
-(* no node of the tree carries * or + *)
-Fixpoint norep (c : raw_content) : bool :=
-  match c with
-  | RC _ _ o l r =>
-      occur_bounded o && match l with Some x => norep x | None => true end
-      && match r with Some x => norep x | None => true end
-  end.
-
-(* clause 1: every sequence group outside choices occurs exactly once
-   clause 2: below a choice that is not itself repeated, nothing is repeated *)
-Fixpoint guard_seq (c : raw_content) : bool :=
-  match c with
-  | RC _ t o l r =>
-      if str_eqb t S_seq then
-        occur_once o && match l with Some x => guard_seq x | None => true end
-        && match r with Some x => guard_seq x | None => true end
-      else true
-  end.
-
-Fixpoint guard_or (c : raw_content) : bool :=
-  match c with
-  | RC _ t o l r =>
-      if str_eqb t S_seq then
-        match l with Some x => guard_or x | None => true end && match r with Some x => guard_or x | None => true end
-      else if str_eqb t S_or then
-        negb (occur_bounded o)
-        || (match l with Some x => norep x | None => true end && match r with Some x => norep x | None => true end)
-      else true
-  end.
-
-Definition dtd_guard (c : raw_content) : bool := guard_seq c && guard_or c.
-
-(* clause 4 (compound fields only): no sequence group below a choice that is not itself repeated.
+(* clause `orseq` (compound fields only): no sequence group below a choice that is not itself repeated.
    The mapper gives every element below an OR node the same choice id and no path, so
    CreateCompoundFields folds them into ONE one-item compound field. *)
 Fixpoint no_seq (c : raw_content) : bool :=
@@ -140,7 +107,7 @@ Fixpoint guard_orseq (c : raw_content) : bool :=
         match l with Some x => guard_orseq x | None => true end && match r with Some x => guard_orseq x | None => true end
   end.
 
-(* clause 3: no element is in a namespace: no prefixed element name, no default xmlns declaration
+(* clause `ns`: no element is in a namespace: no prefixed element name, no default xmlns declaration
    (prefix declarations used by attributes only are fine) *)
 Definition is_default_xmlns (a : raw_attr) : bool :=
   match ra_prefix a with None => str_eqb (ra_name a) S_xmlns | Some _ => false end.
@@ -204,13 +171,11 @@ Definition class_flags (c : eclass) : list bool :=
   [ check (ec_ctype c) (ec_meta c);                                   (* 0 validator: children *)
     check_attrs (ec_decls c) (ec_afields c);                          (* 1 validator: attributes *)
     model_capacity_ok m (ec_model_attrs c);                           (* 2 the mapper model keeps capacity *)
-    match ec_raw c with Some r => guard_seq r | None => true end;      (* 3 guard clause 1 *)
-    match ec_raw c with Some r => guard_or r | None => true end;       (* 4 guard clause 2 *)
-    order_safe m (ec_meta c);                                         (* 5 proved order condition *)
-    rep_confined m;                                                   (* 6 the property's side condition *)
-    cm_wf m;                                                          (* 7 *)
-    amp_default c;                                                    (* 8 a declared default / fixed value contains "&" *)
-    match ec_raw c with Some r => guard_orseq r | None => true end ].  (* 9 guard clause 4 (compound fields) *)
+    order_safe m (ec_meta c);                                         (* 3 proved order condition *)
+    rep_confined m;                                                   (* 4 the property's side condition *)
+    cm_wf m;                                                          (* 5 *)
+    amp_default c;                                                    (* 6 a declared default / fixed value contains "&" *)
+    match ec_raw c with Some r => guard_orseq r | None => true end ].  (* 7 guard clause orseq (compound fields) *)
 
 Definition rejected_of (c : eclass) : option (list name) :=
   match ec_ctype c with CElems m | CMixed m => rejected_word m (ec_meta c) | _ => None end.
